@@ -55,6 +55,12 @@ Theorem C15_rejected_edge_no_change_dbn_jt : forall g,
 Proof. intros g. split; [apply dbn_add_edge_rejected|apply jt_add_edge_rejected]. Qed.
 Print Assumptions C15_rejected_edge_no_change_dbn_jt.
 
+(* DynamicBayesianNetwork.add_cpds with several arguments is atomic: rejected => nothing stored *)
+Theorem C15_dbn_add_cpds_rejected_no_change : forall g cs new e,
+  snd (dbn_add_cpds g cs new) = Err e -> fst (dbn_add_cpds g cs new) = cs.
+Proof. intros g cs new e. unfold dbn_add_cpds. destruct (forallb _ new); [discriminate|reflexivity]. Qed.
+Print Assumptions C15_dbn_add_cpds_rejected_no_change.
+
 (* remove_node(x) through [step]: for every remaining variable v, the CPD object that get_cpds(v) returned
    before — if it was a well-formed, column-normalised table whose parent set equals v's graph parents —
    is afterwards a well-formed, column-normalised table whose parent set equals v's parents in the new graph
